@@ -452,16 +452,16 @@ impl Property for StreamProp {
 
     fn cases(&self, tier: Tier) -> u64 {
         let q = match self.id {
-            "C11" => 12_000,
-            "C12" => 20_000,
-            "C13" => 4_000,
-            "C14" => 4_000,
-            "C01" => 4_000,
+            "C11" => 30_000,
+            "C12" => 60_000,
+            "C13" => 8_000,
+            "C14" => 10_000,
+            "C01" => 8_000,
             _ => 1000,
         };
         match tier {
             Tier::Quick => q,
-            Tier::Thorough => q * 40,
+            Tier::Thorough => q * 20,
         }
     }
 
